@@ -1,8 +1,10 @@
 """harness sets for the spline part of C01 / C02 / C09 / C17 (+ wrappers for C12 / C13)"""
 from contracts.splines import FAMILIES, spline_harness, unconstrained_harness, cdf_harnesses, QUADRATIC_TAILS_PARAM
 
-NOT_DECIDED_CUBIC_INVERSE = ("cubic_spline(inverse=True): the trigonometric three-root branch (atan2/cos/sin + argsort root selection) is outside "
-                             "nonlinear real arithmetic; the cubic inverse is not under contract")
+NOT_DECIDED_CUBIC_INVERSE = ("cubic_spline(inverse=True): the trigonometric three-real-roots branch (atan2/cos/sin + argsort root selection) is outside nonlinear real "
+                             "arithmetic: its result is ASSUMED to be a root of the bin's cubic inside the bin (listed assumption, never counted as proved); "
+                             "0 < |a| < quadratic_threshold is the implementation's declared approximation and is excluded; the one-real-root (Cardano) and "
+                             "a == 0 (fallback) branches are proved")
 
 
 def Ks(tier, fam):
@@ -18,8 +20,8 @@ def spline_harnesses(props, tier, wrappers=True, directions=(False, True)):
     for name, fam in FAMILIES.items():
         for K in Ks(tier, name):
             for inv in directions:
-                if name == "cubic" and inv:
-                    continue
+                if name == "cubic" and inv and K > (2 if tier == "quick" else 3):
+                    continue          # cubic inverse: branch analysis with Cardano / fallback / assumed trig branch; bins bounded for run time
                 if name == "quadratic" and K == 1 and False:
                     continue
                 hs.append(spline_harness(fam, K, inv, props))
